@@ -88,8 +88,8 @@ def fill(claim, na):
         "C14",
         "proof",
         "Lean 4 refinement proof: for every sequence of get_esf requests and cache drops the cache model answers each request with the object a fresh construction would give (induction over the operation list with a cache invariant; key injectivity lemma) + trace correspondence with the real StructureFunction cache + bit-exact real-run histories",
-        "history_independence: any operation list (any permutation/superset of requests, duplicates, TMC inner requests, cross-section requests, drops anywhere) returns, for each request, an object built from its own observable, point and TMC flag; the sorted cache key determines the point whatever the dict's insertion order (the pre-fix insertion-order key is proved non-injective). The model's hit/miss trace and returned objects are compared with the real cache on random histories (incl. delegation between structure functions); the evaluation plan of Runner.get_result (stable Q2 sort, drops, placement by original index) is compared with an instrumented real Runner; real permuted/extended/repeated runs are compared bit for bit with single-point runs.",
-        TB + "An ESF object's result is assumed to be a deterministic function of what it was constructed with (hidden state in numba/LeProHQ/scipy and memo tables of pure functions are outside the model; the bit-exact real-run comparison is what would expose them).",
+        "history_independence: any operation list (any permutation/superset of requests, duplicates, TMC inner requests, cross-section requests, drops anywhere) returns, for each request, an object built from its own observable, point and TMC flag; the sorted cache key determines the point whatever the dict's insertion order (the pre-fix insertion-order key is proved non-injective). The model's hit/miss trace and returned objects are compared with the real cache on random histories (incl. delegation between structure functions); the evaluation plan of Runner.get_result (stable Q2 sort, drops, placement by original index) is compared with an instrumented real Runner; real permuted/extended/repeated runs are compared bit for bit with single-point runs. Memo tables in general (Memo.run_eq_map): a table filled with compute(i) under key(i) answers every history with compute of the request iff the key determines the value, and a key that forgets a dependency has a two-request history with a wrong answer (Memo.incomplete_key_is_wrong); whether the keys of the code's memo tables (scale-variation operators, projectors, weights, couplings) are complete is observed: a sequence of fourteen different configurations sharing kinematics in one process against each run alone in a fresh process, bit for bit.",
+        TB + "An ESF object's result is assumed to be a deterministic function of what it was constructed with; completeness of the keys of the other memo tables is a hypothesis of the memo theorem, observed by the fresh-process comparison (hidden state in numba/LeProHQ/scipy is outside the model).",
         "DESIGN.md 6/C14",
     )
     claim(
@@ -120,7 +120,7 @@ def fill(claim, na):
         "C16",
         "proof",
         "Lean 4 theorem for every environment of the Combiner model (structural proof that only channels of a finite set are ever requested + kernel decision of that set against module/class tables read from the live code each run) + outcome-class correspondence on the configuration lattice + real runs",
-        "no_internal_error: for every nf, mass flags, weights, Q2, flavour, FONLL part, PTO<=3, PTO(evol)<=2 and TMC mode, building the structure function ends in 'ok' or an explicit rejection, never an internal lookup/attribute/import error; kinematics outside 0<x<=1, Q2>0 or below the grid are rejected for all rationals; every kind_flavor key is visited by the NaN sanitiser. The outcome class of the real code (Runner + Combiner + every kernel's RSL construction, no quadrature) is compared with the model on 4000 sampled cells per quick run / all ~125k cells in thorough; full runs check finiteness; all request paths (plain, TMC, cross section) are probed with illegal kinematics.",
+        "no_internal_error: for every nf, mass flags, weights, Q2, flavour, FONLL part, PTO<=3, PTO(evol)<=3 and TMC mode, building the structure function ends in 'ok' or an explicit rejection, never an internal lookup/attribute/import error; kinematics outside 0<x<=1, Q2>0 or below the grid are rejected for all rationals; every kind_flavor key is visited by the NaN sanitiser. The outcome class of the real code (Runner + Combiner + every kernel's RSL construction, no quadrature) is compared with the model on 4000 sampled cells per quick run / all ~125k cells in thorough; full runs check finiteness; all request paths (plain, TMC, cross section) are probed with illegal kinematics.",
         TB + "Finiteness of the numbers is observed, not proved (massive N3LO grids give NaN, zeroed by the sanitiser: known finding F20 under C03).",
         "DESIGN.md 6/C16",
     )
